@@ -19,8 +19,8 @@ SERVER_OWN = {b"date", b"server", b"alt-svc", b"connection"}
 
 def plan(tier: str) -> dict:
     return {
-        "runs": 5000 if tier == "quick" else 300000,
-        "budget": 70 if tier == "quick" else 900,
+        "runs": 12000 if tier == "quick" else 300000,
+        "budget": 150 if tier == "quick" else 900,
         "cases": [],
         "chunk": 40,
         "rule": "Random sessions (HTTP/1.0, 1.1, 2) whose applications send tape-chosen statuses, header lists, "
